@@ -125,7 +125,7 @@ Print Assumptions C02_programs_no_lost_wakeup.
 (* ---------------- waker identity (ObsWaker.v) ----------------
    A task may poll the same subscriber with different waker objects over time.  [wstep] runs
    Obs.step and tracks, for every entry of the waker list, which waker object it is (the poll's). *)
-From EB Require Import ObsWaker.
+From EB Require Import ObsWaker ObsWakerFacts.
 
 (* "wakes the waker supplied to that Pending poll": that very waker object is registered ... *)
 Theorem C02_waker_supplied_is_registered :
